@@ -109,10 +109,32 @@ func (s *SessionStore) setSessionCookie(rw http.ResponseWriter, req *http.Reques
 	if err != nil {
 		return err
 	}
+	written := make(map[string]struct{}, len(cookies))
 	for _, c := range cookies {
+		written[c.Name] = struct{}{}
 		http.SetCookie(rw, c)
 	}
+	s.clearStaleCookies(rw, req, written)
 	return nil
+}
+
+// clearStaleCookies expires the session cookies presented by the request that
+// the current save did not overwrite. They were left in the browser by an
+// earlier save of a differently sized session: an unsplit cookie would be
+// preferred over the newly written parts on the next load, and surplus parts
+// would be joined onto them.
+func (s *SessionStore) clearStaleCookies(rw http.ResponseWriter, req *http.Request, written map[string]struct{}) {
+	// matches CookieName, CookieName_<number>
+	var cookieNameRegex = regexp.MustCompile(fmt.Sprintf("^%s(_\\d+)?$", regexp.QuoteMeta(s.Cookie.Name)))
+
+	for _, c := range req.Cookies() {
+		if _, ok := written[c.Name]; ok {
+			continue
+		}
+		if cookieNameRegex.MatchString(c.Name) {
+			http.SetCookie(rw, s.makeCookie(req, c.Name, "", time.Hour*-1))
+		}
+	}
 }
 
 // makeSessionCookie creates an http.Cookie containing the authenticated user's
